@@ -101,6 +101,7 @@ type Response struct {
 
 	Loads     int      `json:"loads,omitempty"`
 	LoadTrace []string `json:"loadTrace,omitempty"`
+	FaultHits int      `json:"faultHits,omitempty"` // how many loads the fault plan actually failed
 
 	Passed []Answer `json:"passed,omitempty"` // flatten+dump: answers of the Spec handed to Flatten
 	Fresh  []Answer `json:"fresh,omitempty"`  // answers of analysis.New(doc)
